@@ -97,10 +97,11 @@ Definition parse_rw (k : text) : result Z :=          (* parse_rw[...]: KeyError
   else if text_eqb k rw_none then Ok 0
   else Exc KeyError.
 
-Definition special_bit (s : text) (i : nat) (cs vs vx : Z) : result Z :=
+Definition special_bit (s : text) (i : nat) (cs vs vx cu vu : Z) : result Z :=
   c <- of_opt IndexError (char_at i s) ;;               (* s[i] *)
   if c =? cs then Ok vs
   else if c =? 120 then Ok vx
+  else if c =? cu then Ok vu                             (* 'S' / 'T': the bit without execute *)
   else if c =? 45 then Ok 0
   else Exc ValueError.
 
@@ -108,30 +109,34 @@ Definition parse_unix_mode (s : text) : result Z :=
   a <- parse_rw (slice 0 2 s) ;;
   b <- parse_rw (slice 3 5 s) ;;
   c <- parse_rw (slice 6 8 s) ;;
-  x <- special_bit s 2 115 2112 64 ;;                   (* 's' 0o4100 / 'x' 0o0100 *)
-  y <- special_bit s 5 115 1032 8 ;;                    (* 's' 0o2010 / 'x' 0o0010 *)
-  z <- special_bit s 8 116 512 1 ;;                     (* 't' 0o1000 / 'x' 0o0001 *)
+  x <- special_bit s 2 115 2112 64 83 2048 ;;           (* 's' 0o4100 / 'x' 0o0100 / 'S' 0o4000 *)
+  y <- special_bit s 5 115 1032 8 83 1024 ;;            (* 's' 0o2010 / 'x' 0o0010 / 'S' 0o2000 *)
+  z <- special_bit s 8 116 512 1 84 512 ;;              (* 't' 0o1000 / 'x' 0o0001 / 'T' 0o1000 *)
   Ok (Z.lor (Z.lor (Z.lor (Z.lor (Z.lor (Z.shiftl a 6) (Z.shiftl b 3)) c) x) y) z).
 
 (* ---- parse_mlsx_line ---- *)
-Definition parse_mlsx_text (s : text) : text * dict :=
+Definition mlsx_entry (facts_found : text) : dict :=
+  fold_left (fun d fact => let '(k, _, v) := partition 61 fact in dict_set (lower k) v d)
+            (split_on 59 (removelast facts_found)) [].
+
+Definition parse_mlsx_text (s : text) : result (text * dict) :=
   let line := rstrip s in
-  let '(facts_found, _, name) := partition SP line in
-  let facts := split_on 59 (removelast facts_found) in
-  let entry := fold_left (fun d fact => let '(k, _, v) := partition 61 fact in
-                                        dict_set (lower k) v d) facts [] in
-  (posix_norm name, entry).
+  let '(facts_found, sep, name) := partition SP line in
+  if negb sep || (match name with [] => true | _ => false end)
+  then Exc ValueError                                     (* no pathname in MLSx line *)
+  else Ok (posix_norm name, mlsx_entry facts_found).
 
 (* ---- parse_directory_response ---- *)
 Fixpoint dir_loop (s : text) (start : bool) (seq : nat) (acc_rev : text) : text :=
   match s with
-  | [] => rev acc_rev
+  | [] => rev (repeat 34 (Nat.div2 seq) ++ acc_rev)       (* directory += quote * (seq // 2) *)
   | ch :: r =>
       if negb start then dir_loop r (ch =? 34) seq acc_rev
       else if ch =? 34 then dir_loop r true (S seq) acc_rev
-      else if Nat.eqb seq 1 then rev acc_rev
-      else if Nat.eqb seq 2 then dir_loop r true O (ch :: 34 :: acc_rev)
-      else dir_loop r true seq (ch :: acc_rev)
+      else
+        let acc' := repeat 34 (Nat.div2 seq) ++ acc_rev in
+        if Nat.odd seq then rev acc'                       (* the closing quote: break *)
+        else dir_loop r true O (ch :: acc')
   end.
 Definition parse_directory_response (s : text) : text := posix_norm (dir_loop s false O []).
 
@@ -210,7 +215,8 @@ Definition parse_epsv_response (s : text) : result Z :=
 (* ---- Client.stat, MLST half:  parse_mlsx_line(info[1].lstrip()) ---- *)
 Definition stat_mlst (info : list text) : result dict :=
   l <- of_opt IndexError (nth_error info 1) ;;
-  Ok (snd (parse_mlsx_text (lstrip l))).
+  v <- parse_mlsx_text (lstrip l) ;;
+  Ok (snd v).
 
 (* ---- StreamReader.readline's limit ---- *)
 Definition content_len (l : list Z) : Z :=
@@ -250,6 +256,7 @@ Section WithCodec.
     ' (ty, mode, (links, owner, group, size), s5) <- unix_prefix b ;;
     modify <- ls_date (strip (firstn 12 s5)) ;;
     let s6 := strip (skipn 12 s5) in
+    _ <- guard (negb (is_nil s6)) ValueError ;;            (* no name column *)
     let info := [(k_type, ty); (k_mode, str_of_Z mode); (k_links, links); (k_owner, owner);
                  (k_group, group); (k_size, size); (k_modify, modify)] in
     if text_eqb ty t_link then
@@ -279,7 +286,7 @@ Section WithCodec.
                   _ <- guard (str_isdigit size) ValueError ;;
                   Ok [(k_modify, modify); (k_type, t_file); (k_size, size)]) ;;
     let filename := lstrip (skipn ns line) in
-    _ <- guard (negb (is_dot_name filename)) ValueError ;;
+    _ <- guard (negb (is_nil filename || is_dot_name filename)) ValueError ;;
     Ok (posix_norm filename, info).
 
   (* parse_list_line with parse_list_line_custom = None: unix, then windows; anything in the
@@ -298,7 +305,7 @@ Section WithCodec.
 
   Definition parse_mlsx_line (b : list Z) : result (text * dict) :=
     s <- of_opt UnicodeDecodeError (dec b) ;;
-    Ok (parse_mlsx_text s).
+    parse_mlsx_text s.
 
   (* ---- readline + decode, shared by the reply loop and the server ---- *)
   Variable limit : Z.
@@ -401,16 +408,16 @@ Section Lister.
             match parse mode l with
             | Exc e => {| yields := rev acc; requests := rev reqs; ending := LRaised e |}
             | Ok (name, info) =>
-                if is_dot_name name then lister_loop f recursive cur mode ls queue sc acc reqs
-                else
-                  match dict_get k_type info with
-                  | None => {| yields := rev acc; requests := rev reqs; ending := LRaised KeyError |}
-                  | Some t =>
+                match dict_get k_type info with            (* "type" not in info: ValueError, before the skip *)
+                | None => {| yields := rev acc; requests := rev reqs; ending := LRaised ValueError |}
+                | Some t =>
+                    if is_dot_name name then lister_loop f recursive cur mode ls queue sc acc reqs
+                    else
                       let p := posix_div cur name in
                       let q' := if text_eqb t t_dir && recursive then queue ++ [p] else queue in
                       lister_loop f recursive cur mode ls q' sc
                                   ({| e_path := p; e_name := name; e_info := info |} :: acc) reqs
-                  end
+                end
             end
         end
     end.
@@ -448,6 +455,7 @@ Definition parse_oline (dec : list Z -> option text) (limit : Z) (list_mode : bo
 Inductive handler_class : Type := HPathIOError | HCancelledError | HException | HBaseException.
 Inductive reaction : Type :=
 | RContinue451        (* queue 451, keep serving *)
+| RContinue426        (* a cancelled transfer task: queue 426 + 226, keep serving *)
 | RReraise            (* leaves the dispatcher coroutine (after `finally`) *)
 | REndSession.        (* logged; falls into `finally`: this session ends, nothing propagates *)
 
@@ -508,7 +516,7 @@ Section Server.
     | CmdOk c r => Served (update_session sid (fun s => handle s c r) srv)
     | CmdExc e =>
         match react lad e with
-        | RContinue451 => Served srv
+        | RContinue451 | RContinue426 => Served srv
         | REndSession => Served (remove_session sid srv)
         | RReraise => Escaped e (remove_session sid srv)
         end
@@ -558,7 +566,8 @@ Definition sx_of_rresult (r : rresult) : sx :=
 (* the ladder as written in server.py today (used by the harness stream only;
    Props/C19.v takes it from Gen/Dispatch.v) *)
 Definition ladder_as_read : ladder :=
-  [(HPathIOError, RContinue451); (HCancelledError, RReraise); (HException, REndSession)].
+  [(HPathIOError, RContinue451); (HCancelledError, RContinue426); (HCancelledError, RReraise);
+   (HException, REndSession)].
 
 Definition run_parsers (fn : Z) (a : sx) : sx :=
   let enc := z_of_sx (nth_sx 0 a) in
@@ -597,7 +606,7 @@ Definition run_parsers (fn : Z) (a : sx) : sx :=
       | CmdOk c r => L [I 0; sx_of_text c; sx_of_text r]
       | CmdExc e => L [I (-1); sx_of_exc e;
                        I (match react ladder_as_read e with
-                          | RContinue451 => 0 | RReraise => 1 | REndSession => 2 end)]
+                          | RContinue451 | RContinue426 => 0 | RReraise => 1 | REndSession => 2 end)]
       end
   | 13 => sx_of_option (fun z => sx_of_text (str_of_Z z)) (py_int (text_of_sx (nth_sx 0 a)))
   | 14 => sx_of_text (posix_norm (text_of_sx (nth_sx 0 a)))
